@@ -165,6 +165,29 @@ func newInterpRaw(info *types.Info, pkg *types.Package, files []*ast.File, fset 
 // zero values and struct objects
 
 func (it *Interp) zero(t types.Type) Value {
+	if tp, ok := types.Unalias(t).(*types.TypeParam); ok {
+		// a type parameter constrained to integer types (the runtime's U): zero is 0
+		if iface, ok := tp.Constraint().Underlying().(*types.Interface); ok {
+			for i := 0; i < iface.NumEmbeddeds(); i++ {
+				if un, ok := iface.EmbeddedType(i).(*types.Union); ok && un.Len() > 0 {
+					if b, ok := un.Term(0).Type().Underlying().(*types.Basic); ok && b.Info()&types.IsNumeric != 0 {
+						return int64(0)
+					}
+				}
+				if nm, ok := iface.EmbeddedType(i).(*types.Named); ok {
+					if in2, ok := nm.Underlying().(*types.Interface); ok {
+						for j := 0; j < in2.NumEmbeddeds(); j++ {
+							if un, ok := in2.EmbeddedType(j).(*types.Union); ok && un.Len() > 0 {
+								if b, ok := un.Term(0).Type().Underlying().(*types.Basic); ok && b.Info()&types.IsNumeric != 0 {
+									return int64(0)
+								}
+							}
+						}
+					}
+				}
+			}
+		}
+	}
 	switch u := t.Underlying().(type) {
 	case *types.Basic:
 		switch {
@@ -467,7 +490,7 @@ func (it *Interp) store(l ast.Expr, env *Env, v Value) {
 			if b == nil {
 				it.panics(l, "assignment to entry in nil map")
 			}
-			b.m[mapKey(idx)] = v
+			b.m[it.keyOf(ie.Index, idx)] = v
 			return
 		case *SliceV:
 			i, ok := idx.(int64)
@@ -490,7 +513,7 @@ func (it *Interp) mapIndexOK(ie *ast.IndexExpr, env *Env) []Value {
 	if !ok {
 		it.fail(ie, "comma-ok index on non-map")
 	}
-	k := mapKey(it.eval(ie.Index, env))
+	k := it.keyOf(ie.Index, it.eval(ie.Index, env))
 	v, has := m.m[k]
 	if !has {
 		v = it.zero(it.info.Types[ie].Type)
@@ -499,6 +522,40 @@ func (it *Interp) mapIndexOK(ie *ast.IndexExpr, env *Env) []Value {
 		}
 	}
 	return []Value{v, has}
+}
+
+// keyOf: the map key for a value; struct-typed keys compare by value.
+func (it *Interp) keyOf(e ast.Expr, v Value) any {
+	if o, ok := v.(*Obj); ok && o != nil {
+		if tv, ok := it.info.Types[e]; ok && tv.Type != nil {
+			if _, isStruct := tv.Type.Underlying().(*types.Struct); isStruct {
+				return structKey(o)
+			}
+		}
+	}
+	return mapKey(v)
+}
+
+func structKey(o *Obj) string {
+	var sb strings.Builder
+	sb.WriteString("{")
+	for i, f := range o.fields {
+		if i > 0 {
+			sb.WriteString(",")
+		}
+		switch x := f.v.(type) {
+		case *Obj:
+			if _, isStruct := o.st.Field(i).Type().Underlying().(*types.Struct); isStruct {
+				sb.WriteString(structKey(x))
+			} else {
+				fmt.Fprintf(&sb, "%p", x)
+			}
+		default:
+			fmt.Fprintf(&sb, "%T:%v", x, x)
+		}
+	}
+	sb.WriteString("}")
+	return sb.String()
 }
 
 func mapKey(v Value) any {
@@ -883,7 +940,7 @@ func (it *Interp) eval(e ast.Expr, env *Env) Value {
 			if b == nil {
 				return it.zero(it.info.Types[e].Type)
 			}
-			if v, ok := b.m[mapKey(idx)]; ok {
+			if v, ok := b.m[it.keyOf(x.Index, idx)]; ok {
 				return v
 			}
 			return it.zero(it.info.Types[e].Type)
@@ -1127,7 +1184,7 @@ func (it *Interp) compositeLit(x *ast.CompositeLit, env *Env) Value {
 		m := &MapV{map[any]Value{}}
 		for _, el := range x.Elts {
 			kv := el.(*ast.KeyValueExpr)
-			m.m[mapKey(it.eval(kv.Key, env))] = it.evalCopy(kv.Value, env)
+			m.m[it.keyOf(kv.Key, it.eval(kv.Key, env))] = it.evalCopy(kv.Value, env)
 		}
 		return m
 	default:
